@@ -66,7 +66,7 @@ func vFaultyField(sel int) (f Field, wantErrField bool) {
 		return Stringer("bad", vPanicStr{}), true
 	case 5:
 		vrt.Tag("ctor=Stringers elem=nilptr")
-		return Stringers("bad", []*vNilStr{{"ok"}, nil}), false
+		return Stringers("bad", []*vNilStr{{"ok"}, nil, {"tail"}}), false
 	case 6:
 		vrt.Tag("ctor=Stringers elem=panics")
 		return Stringers("bad", []vPanicStr{{}}), true
@@ -76,7 +76,7 @@ func vFaultyField(sel int) (f Field, wantErrField bool) {
 		return NamedError("bad", vPanicErr{}), true
 	case 9:
 		vrt.Tag("ctor=Errors elem=nilptr")
-		return Errors("bad", []error{errors.New("fine"), (*vNilErr)(nil)}), false
+		return Errors("bad", []error{errors.New("fine"), (*vNilErr)(nil), errors.New("tail")}), false
 	case 10:
 		vrt.Tag("ctor=Errors elem=panics")
 		return Errors("bad", []error{vPanicErr{}}), true
@@ -157,6 +157,23 @@ func VC10ZapFields() {
 		vrt.Assert("failure-described-under-keyError", vHasKeyDeep(v.Get("bad"), want))
 	case wantErr:
 		vrt.Assert("failure-described-under-keyError", keys["badError"])
+	}
+	// the intact elements around a faulty element of an array are siblings too
+	if sel == 5 || sel == 9 {
+		arr := v.Get("bad")
+		want := []string{"ok", "<nil>", "tail"}
+		if sel == 9 {
+			want[0] = "fine"
+		}
+		ok := arr != nil && arr.Kind == vrt.JArr && len(arr.Arr) == len(want)
+		for i := 0; ok && i < len(want); i++ {
+			e := arr.Arr[i]
+			if sel == 9 {
+				e = e.Get("error")
+			}
+			ok = e != nil && e.Kind == vrt.JStr && string(e.Str) == want[i]
+		}
+		vrt.Assert("intact-elements-around-a-faulty-element-survive", ok)
 	}
 	vrt.Observe("keys", len(v.Obj))
 	vrt.Cover("done")
